@@ -66,7 +66,12 @@ func buildAudEvent(typ string, tsIdx, seq int, f audFields) audEvent {
 			l += ` UID="root" OLD-AUID="unset" AUID="someuser"`
 		}
 		e.Lines = []string{l}
-	case "SYSCALL":
+	case "SYSCALL", "AVC_SYSCALL":
+		if typ == "AVC_SYSCALL" {
+			// an SELinux denial: the AVC record precedes the SYSCALL record of the same event
+			e.Lines = append(e.Lines, fmt.Sprintf("type=AVC msg=%s: avc:  denied  { read } for  pid=%s comm=%s name=\"shadow\" dev=\"dm-0\" ino=1453124 scontext=system_u:system_r:svirt_lxc_net_t:s0:c222,c955 tcontext=system_u:object_r:shadow_t:s0 tclass=file permissive=1",
+				st, f.PID, q(baseName(f.Exe))))
+		}
 		l := fmt.Sprintf("type=SYSCALL msg=%s: arch=c000003e syscall=%s success=%s exit=0 a0=557fa8254980 a1=557fa827a720 a2=557fa82549c0 a3=557fa7701780 items=%d ppid=803 pid=%s auid=%s uid=%s gid=0 euid=0 suid=0 fsuid=0 egid=0 sgid=0 fsgid=0 tty=pts3%s comm=%s exe=%s key=%s",
 			st, f.Syscall, f.Result, len(f.Paths), f.PID, f.UID, f.UID, ses, q(baseName(f.Exe)), q(f.Exe), q(f.Key))
 		if f.Tail {
@@ -144,7 +149,7 @@ func audArg(s string) string {
 // genAudFields draws the free fields of one event.
 func genAudFields(rt *rapid.T, typ string, ses string, pid string) audFields {
 	f := audFields{Ses: ses, PID: pid}
-	if typ == "SYSCALL" {
+	if typ == "SYSCALL" || typ == "AVC_SYSCALL" {
 		f.Result = pick(rt, "succ", []string{"yes", "yes", "no"})
 	} else if typ == "LOGIN" {
 		f.Result = pick(rt, "res", []string{"1", "1", "0"})
@@ -158,7 +163,7 @@ func genAudFields(rt *rapid.T, typ string, ses string, pid string) audFields {
 	f.Tail = rapid.IntRange(0, 2).Draw(rt, "tail") == 0
 	f.Key = pick(rt, "key", []string{"operator-commands", "security-config-changes", "x"})
 	f.Syscall = pick(rt, "sc", []string{"59", "257", "2", "87"})
-	if typ == "SYSCALL" || typ == "USER_CMD" {
+	if typ == "SYSCALL" || typ == "USER_CMD" || typ == "AVC_SYSCALL" {
 		if typ == "USER_CMD" || rapid.IntRange(0, 3).Draw(rt, "execve") > 0 {
 			n := rapid.IntRange(1, 5).Draw(rt, "argc")
 			for i := 0; i < n; i++ {
